@@ -52,14 +52,26 @@ def _pending_of(pid, fd):
         os.close(f)
 
 
+_WAITS = ("0", "7", "271", "232", "281", "61", "247")   # read poll ppoll epoll_wait epoll_pwait wait4 waitid
+
+
 def _asleep_waiting(pid):
+    """The process waits for input: every thread sleeps, at least one of them in a read-like call, the others there or on a
+    futex (a design in which a helper thread reads and the main thread waits for it is observed just the same)."""
     try:
-        st = open(f"/proc/{pid}/task/{pid}/stat").read()
-        state = st[st.rindex(")") + 2]
-        sc = open(f"/proc/{pid}/task/{pid}/syscall").read().split()
-    except (FileNotFoundError, ProcessLookupError, ValueError):
+        tids = os.listdir(f"/proc/{pid}/task")
+        waits = 0
+        for tid in tids:
+            st = open(f"/proc/{pid}/task/{tid}/stat").read()
+            if st[st.rindex(")") + 2] != "S":
+                return False
+            sc = open(f"/proc/{pid}/task/{tid}/syscall").read().split()
+            if not sc or sc[0] not in _WAITS + ("202",):
+                return False
+            waits += sc[0] in _WAITS
+    except (FileNotFoundError, ProcessLookupError, ValueError, OSError):
         return False
-    return state == "S" and len(sc) >= 1 and sc[0] in ("0", "7", "271", "232", "281", "61", "247")   # read poll ppoll epoll_wait epoll_pwait wait4 waitid
+    return waits >= 1
 
 
 def _pipe_fds(pid):
